@@ -8,8 +8,8 @@ import z3
 
 import sx
 from sx import core, loader
-from sx.core import (symint, symbv, symbool, check, assume, SxInt, SxBool, E, reach, ite, And, Or, Not)
-from .common import Registry, real
+from sx.core import (symint, symbv, symbool, check, assume, choose, SxInt, SxBool, E, reach, ite, And, Or, Not, Iff)
+from .common import Registry, real, generic_replay
 
 conn = sx.load('connection')
 SeqNum = conn.SeqNum
@@ -474,8 +474,58 @@ R.add('L8.7', l87, [dict(fragment=False), dict(fragment=True)], replay=replay_l8
               'a never-received message older than the window is not flagged duplicate'],
       bounds='all 65535 window positions, all 2^256 window contents, offsets -32767..32767; payload <= 100 opaque bytes')
 
-for _lid in ['L8.1', 'L8.1s', 'L8.1c', 'L8.2', 'L8.3t']:
+# ------------------------------------------------------------------ L8.8 the window through its API only
+def l88(nbits, n):
+    """BitField(nbits) from its constructor, n insertions of sequence numbers near a base (any order, gaps, repeats,
+    across the wrap), nothing injected: every insert() is refused exactly when that number was received
+    before and lies inside the window, and contains() agrees.  Complements L8.4 (arbitrary injected state), which cannot
+    see a window whose *representation* differs from the one the harness writes."""
+    bf = conn.BitField(nbits)
+    # finite domain, enumerated through engine decisions (as in C20): representative offsets around every boundary of
+    # the window (0, 1, 2, the 32-entry mark, nbits-1, nbits, nbits+1, beyond, and their negatives) and bases at both
+    # ends of the ring
+    offs = sorted({0, 1, 2, 31, 32, 33, 40, nbits - 1, nbits, nbits + 1, nbits + 30, -1, -2, -32, -33, -nbits, -(nbits + 1)})
+    base = [1, 300, MAXSEQ - 300, MAXSEQ][choose(4, 'base')]
+    received = []                 # offsets (plain ints relative to base) accepted so far
+    cur = None
+    for i in range(n):
+        off = offs[choose(len(offs), 'off%d' % i)]
+        x = SeqNum(base) + off
+        if cur is None:
+            inside_dup = False
+        else:
+            dist = cur - off
+            was = Or(*[off == r for r in received]) if received else False
+            inside_dup = And(was, dist >= 0, dist <= nbits)
+        try:
+            bf.insert(x)
+            refused = False
+        except conn.DuplicationError:
+            refused = True
+        check(Iff(refused, inside_dup), 'insert() is refused exactly when the number was received before inside the window', step=i)
+        if not refused:
+            received.append(off)
+            if cur is None or bool(off > cur):
+                cur = off
+        # contains() for everything accepted so far that is still inside the window
+        for r in received:
+            d = cur - r
+            if bool(And(d >= 0, d <= nbits)):
+                check(bf.contains(SeqNum(base) + r), 'contains() knows every number received inside the window', step=i)
+
+
+R.add('L8.8', l88, lambda tier: [dict(nbits=w, n=(3 if tier == 'quick' else 4)) for w in (8, 32, 256)],
+      desc='BitField built through its API only: 3 (thorough 4) insertions at representative offsets around every window boundary, bases at both ends of the ring: '
+           'refused <=> received before inside the window; contains() agrees',
+      expect=['insert() is refused exactly when the number was received before inside the window',
+              'contains() knows every number received inside the window'],
+      bounds='widths 8 / 32 / 256; 3 (thorough 4) insertions; 17 representative offsets x 4 bases (finite domain, enumerated)')
+
+for _lid in ['L8.1', 'L8.1s', 'L8.1c', 'L8.2', 'L8.3t', 'L8.8']:
     if _lid in R.lemmas:
         R.lemmas[_lid].api = True
+
+import sys as _sys  # noqa: E402
+R.lemmas['L8.8'].replay = generic_replay(l88, [_sys.modules[__name__]])
 
 get_harness = R.get_harness
